@@ -73,6 +73,15 @@ def roundtrip_exempt(params, v):
     """value assignments for which ODX itself does not promise a round trip:
     returns a reason or None.  (bit masks drop the masked bits by definition;
     a non-injective compu method cannot return the original value)"""
+    dyn_seen = False
+    g = cc.Gen(None)
+    for p in params:
+        kd = p["kind"]
+        if dyn_seen and p["bytepos"] is not None:
+            # ODX: the position of an object behind one of variable size cannot be given statically
+            return "explicit byte position behind a dynamically sized object"
+        if kd["k"] in ("value", "physconst", "lenkey") and g.static_size(kd["dop"]) is None:
+            dyn_seen = True
     for p in params:
         kd = p["kind"]
         if kd["k"] in ("value", "physconst", "lenkey"):
@@ -205,6 +214,8 @@ def _dop_features(d, acc):
             acc["low-high"] = acc.get("low-high", 0) + 1
         if dc.get("mask") is not None:
             acc["bit-mask"] = acc.get("bit-mask", 0) + 1
+        if dc["bt"] in (cc.BASCII, cc.BUTF8, cc.BUNI) and dc["en"] in (0, 1, 2, 3, 4, 5):
+            acc["illegal-encoding"] = acc.get("illegal-encoding", 0) + 1
         acc["compu-" + d["compu"]["k"]] = acc.get("compu-" + d["compu"]["k"], 0) + 1
     elif k == "struct":
         if d["bs"] is not None:
@@ -288,7 +299,7 @@ def main(pid, argv=None):
                            cc.param("p2", dict(k="value", dop=cc.simple(cc.std(cc.BUINT, 8, 2, False)), dflt=None), 3, 6)],
                           False, None))
         cases = cr.build_cases(rng, n_desc, values_per_stream=vps, decode_budget=budget, want_static=(pid == "C08"),
-                               extra_descs=extra)
+                               extra_descs=extra, use_corpus=True)
     if pid in ("C04", "C01", "C02") and not ck.replay:
         try:
             sweep = cr.atomic_sweep_cases(rng, quick)
@@ -355,7 +366,9 @@ def main(pid, argv=None):
                                 if not deep_subset(want, got):
                                     bad = (f"decode(encode(v)) differs from v: PDU {pdu.hex()} decodes to "
                                            f"{got!r}, expected at least {want!r}")
-                                elif pid == "C01":
+                                elif pid == "C01" and not any(k in desc_features(c.params) for k in
+                                                              ("byte-size", "explicit-bytepos", "dop-static")):
+                                    # (padding and explicitly positioned objects need not be read last)
                                     try:
                                         if not decode_reads_all(c.obj, pdu):
                                             bad = f"decoding does not consume the whole PDU {pdu.hex()}"
@@ -411,7 +424,9 @@ def main(pid, argv=None):
                 ck.hist("decode_input", d["origin"])
                 bad = None
                 if pid in ("C05", "C02"):
-                    if impl[0] != 0 and impl[1] in (4, 5, 8):
+                    if impl[0] != 0 and impl[1] == 4 and "illegal-encoding" in feats_c:
+                        pass  # the description itself is rejected (odxraise for an illegal encoding)
+                    elif impl[0] != 0 and impl[1] in (4, 5, 8):
                         bad = {4: "decoding raised an OdxError which is not a DecodeError",
                                5: f"decoding raised a foreign exception ({impl[2] if len(impl) > 2 else ''})",
                                8: "decoding does not terminate"}[impl[1]]
